@@ -20,7 +20,78 @@ fn gen_desc(r: &mut Rng) -> KeyDesc {
     let n = r.usize(3);
     let mut ks = LK.to_vec();
     r.shuffle(&mut ks);
-    KeyDesc { name: r.pick(NAMES).to_string(), labels: (0..n).map(|i| (ks[i].to_string(), r.pick(LV).to_string())).collect() }
+    let mut d = KeyDesc { name: r.pick(NAMES).to_string(), labels: (0..n).map(|i| (ks[i].to_string(), r.pick(LV).to_string())).collect() };
+    if n == 2 && r.chance(1, 4) && d.labels[0].1 != d.labels[1].1 {
+        // two labels sharing a name (different values): equal keys may list them in either order
+        d.labels[1].0 = d.labels[0].0.clone();
+    }
+    d
+}
+
+/// Several debugging recorders installed as thread-local recorders with guards dropped in any order: each recorder's
+/// snapshot must list exactly the metrics emitted while it was the innermost live installation.
+fn run_local_guards(a: &Args, rep: &mut Report, r: &mut Rng) {
+    let n = if cfg!(miri) { 2 } else { a.budget(400, 40_000) };
+    for _ in 0..n {
+        let recs: Vec<DebuggingRecorder> = (0..3).map(|_| DebuggingRecorder::new()).collect();
+        let snaps: Vec<_> = recs.iter().map(|x| x.snapshotter()).collect();
+        let mut expect: Vec<Vec<String>> = vec![Vec::new(); 3];
+        let mut trace: Vec<String> = Vec::new();
+        let mut nontrivial = false;
+        {
+            let mut guards: Vec<Option<metrics::LocalRecorderGuard<'_>>> = Vec::new();
+            let mut live: Vec<(usize, usize)> = Vec::new(); // (guard index, recorder) in installation order
+            let steps = 4 + r.usize(14);
+            for step in 0..steps {
+                match r.below(5) {
+                    0 | 1 if live.len() < 5 => {
+                        let i = r.usize(3);
+                        guards.push(Some(metrics::set_default_local_recorder(&recs[i])));
+                        live.push((guards.len() - 1, i));
+                        trace.push(format!("install rec{}", i));
+                    }
+                    2 if !live.is_empty() => {
+                        let k = r.usize(live.len());
+                        if k + 1 != live.len() {
+                            nontrivial = true;
+                        }
+                        let (gi, ri) = live.remove(k);
+                        guards[gi] = None;
+                        trace.push(format!("drop guard of install #{} (rec{}){}", gi, ri, if k == live.len() { "" } else { " — not the innermost" }));
+                    }
+                    _ => {
+                        let name = format!("m{}", step);
+                        metrics::counter!(name.clone()).increment(1);
+                        if let Some((_, ri)) = live.last() {
+                            expect[*ri].push(name.clone());
+                        }
+                        trace.push(format!("emit {} -> {}", name, live.last().map(|x| format!("rec{}", x.1)).unwrap_or("no recorder".into())));
+                    }
+                }
+            }
+            // end every remaining scope in a random order, then emit once more: nobody may see it
+            while !live.is_empty() {
+                let k = r.usize(live.len());
+                let (gi, _) = live.remove(k);
+                guards[gi] = None;
+            }
+            metrics::counter!("after_all_scopes_ended").increment(1);
+        }
+        let mut hcase = 0u64;
+        for (i, sn) in snaps.iter().enumerate() {
+            let mut got: Vec<String> = sn.snapshot().into_vec().into_iter().map(|(ck, _, _, _)| ck.key().name().to_string()).collect();
+            got.sort();
+            let mut exp = expect[i].clone();
+            exp.sort();
+            exp.dedup();
+            hcase = mix(hcase, fnv(format!("{:?}", got).as_bytes()));
+            if got != exp {
+                rep.violation("C19:local-recorder-shows-foreign-metrics", jo! {"what" => "a debugging recorder installed as a thread-local recorder does not list exactly the metrics emitted while it was the innermost live installation", "recorder" => i, "listed" => format!("{:?}", got), "expected" => format!("{:?}", exp), "program" => J::A(trace.iter().map(|t| J::s(t.clone())).collect())});
+                break;
+            }
+        }
+        rep.case(hcase, nontrivial);
+    }
 }
 
 fn kind_of(k: u8) -> MetricKind {
@@ -57,6 +128,7 @@ fn run_seq(a: &Args) -> Report {
     let mut rep = Report::new("C19", &a.leg, a.seed);
     let mut r = Rng::new(a.shard_seed());
     let miri = cfg!(miri);
+    run_local_guards(a, &mut rep, &mut r);
     let n = if miri { 3 } else { a.budget(5000, 500_000) };
     for _ in 0..n {
         let rec = DebuggingRecorder::new();
